@@ -264,6 +264,13 @@ Proof. exists 7, 0, 0, (9 * BaseFee.E18). vm_compute. discriminate. Qed.
 Lemma new_tracer_head tr t : new_tracer impl_head tr t = Ok tt.
 Proof. destruct tr; reflexivity. Qed.
 
+(* the result of a refused state transition does not look at the node's telemetry switch (nor at anything else of nenv) *)
+Lemma apply_error_head e1 e2 t g : apply_error_result impl_head e1 t g = apply_error_result impl_head e2 t g.
+Proof. reflexivity. Qed.
+
+Lemma apply_error_head_code e t g : apply_error_result impl_head e t g = mkRes CODE_APPLY_ERROR (t_gas t) g [].
+Proof. reflexivity. Qed.
+
 Section ExecProofs.
   Variable interp : header -> world -> txd -> list op * Z * Z * bool.
 
@@ -274,6 +281,7 @@ Section ExecProofs.
     rewrite (deliver_floor_indep (c_base s) (c_gmin s) (n_min_gas e1) (n_min_gas e2)).
     rewrite !new_tracer_head.
     destruct (interp h (c_w s) t) as [[[ops g_ok] g_fail] vmerr].
+    rewrite (apply_error_head e1 e2 t g_fail).
     rewrite (nrun_tx_indep e1 e2 i (h_time h) (c_blocked s) (c_w s) ops H1 H2). reflexivity.
   Qed.
 
@@ -309,6 +317,8 @@ Section ExecProofs.
     destruct (_ <? _).
     - intros H. injection H as _ <-. exists []. split; [reflexivity | constructor].
     - destruct (interp h (c_w s) t) as [[[ops g_ok] g_fail] vmerr].
+      destruct (core_refuses s t).
+      { rewrite apply_error_head_code. intros H. injection H as _ <-. exists []. split; [reflexivity | constructor]. }
       unfold nrun_tx.
       destruct (nrun_ops e _ i 0 (init_sdb (c_w s)) ops) as [sf|].
       + destruct (ncommit impl_head e i (h_time h) (cur sf)) as [[w' burns]|] eqn:Ec.
@@ -460,8 +470,8 @@ Definition put (w : world) (a : addr) (ac : account) (c : coins) (h : Z) (s : st
   mkWorld (upd (w_acc w) a (Some ac)) (upd (w_bal w) a c) (upd (w_code w) a h) (upd (w_stor w) a s) (w_next w).
 
 (* two ambient environments that differ in every component *)
-Definition env_id : nenv := mkNenv 2000 (fun _ _ _ l => l) 0 TrNone 1.
-Definition env_rev : nenv := mkNenv 5000 (fun _ _ _ l => rev l) (10 ^ 30) TrAccessList 16.
+Definition env_id : nenv := mkNenv 2000 (fun _ _ _ l => l) 0 TrNone 1 false 0.
+Definition env_rev : nenv := mkNenv 5000 (fun _ _ _ l => rev l) (10 ^ 30) TrAccessList 16 true 77.
 
 Lemma env_id_perm : perm_ok env_id.
 Proof. intros i k j l. apply Permutation_refl. Qed.
@@ -494,18 +504,24 @@ Definition ex_interp (_ : header) (_ : world) (t : txd) : list op * Z * Z * bool
   else if t_tag t =? 3 then ([AddBalance 6 0], 21000, 30000, false)
   else ([], 21000, 21000, false).
 
-Definition ex_tx (tag : Z) (create : bool) (stake : option Z) : txd := mkTxd 8 create false 10 0 0 100000 tag stake.
+Definition ex_tx (tag : Z) (create : bool) (stake : option Z) : txd := mkTxd 8 create false 10 0 0 100000 tag 0 stake.
+
+(* a call / creation carrying [value] (wallet 8 owns 10^20) *)
+Definition ex_tx_value (create : bool) (value : Z) : txd := mkTxd 8 create false 10 0 0 100000 0 value None.
 
 Definition ex_block : block :=
   (mkHeader 7 4000, [ex_tx 1 false None; ex_tx 2 false None; ex_tx 3 false None; ex_tx 0 true None;
-                     ex_tx 0 false (Some (2 * 10 ^ 18)); mkTxd 8 false false 9 0 0 100000 0 None]).
+                     ex_tx 0 false (Some (2 * 10 ^ 18)); mkTxd 8 false false 9 0 0 100000 0 0 None;
+                     ex_tx_value false (10 ^ 21); ex_tx_value true (10 ^ 19)]).
 
 Definition results {A B C} (x : A * B * C) : B * C := (snd (fst x), snd x).
 
 (* what the block does at HEAD, under either environment: the expired vesting account is deleted; both contracts are
    destroyed, burns in address order 7, 9; touching the unexpired vesting account fails the transaction; the creation
    passes whatever the tracer; transfer() picks validator 2 (least tokens among the caller's bonded ones, ties by
-   operator; validator 3 is not bonded) and its power goes from 1 to 3; the under-priced transaction is refused *)
+   operator; validator 3 is not bonded) and its power goes from 1 to 3; the under-priced transaction is refused; the
+   call sending more than the wallet owns is refused by the state transition (code 1), whether or not the node collects
+   telemetry; the creation endowed with less than that is executed *)
 Lemma ex_block_result :
   results (exec_block ex_interp impl_head env_id ex_state ex_block) =
     ([mkRes 0 100000 21000 [];
@@ -513,7 +529,9 @@ Lemma ex_block_result :
       mkRes CODE_PANIC 100000 30000 [];
       mkRes 0 100000 21000 [];
       mkRes 0 100000 100000 [EvDelegate 8 2 (2 * 10 ^ 18)];
-      mkRes CODE_INSUFFICIENT_FEE (-1) 0 []],
+      mkRes CODE_INSUFFICIENT_FEE (-1) 0 [];
+      mkRes CODE_APPLY_ERROR 100000 21000 [];
+      mkRes 0 100000 21000 []],
      [(2, 3)]) /\
   results (exec_block ex_interp impl_head env_rev ex_state ex_block) =
   results (exec_block ex_interp impl_head env_id ex_state ex_block).
@@ -524,25 +542,42 @@ Definition env_independent (im : impl) : Prop :=
     exec_block interp im e1 s b = exec_block interp im e2 s b.
 
 (* before 295ed89: wall clock 2000 -> account 5 "still vesting" -> the transaction panics; wall clock 5000 -> deleted *)
-Lemma wallclock_guard_refuted : ~ env_independent (mkImpl true false false).
+Lemma wallclock_guard_refuted : ~ env_independent (mkImpl true false false false).
 Proof.
   intros H. specialize (H ex_interp env_id env_rev ex_state (mkHeader 7 4000, [ex_tx 1 false None]) env_id_perm env_rev_perm).
   apply (f_equal results) in H. vm_compute in H. discriminate.
 Qed.
 
 (* before 133c300: burn events follow the enumeration order of `touched` *)
-Lemma commit_map_order_refuted : ~ env_independent (mkImpl false true false).
+Lemma commit_map_order_refuted : ~ env_independent (mkImpl false true false false).
 Proof.
   intros H. specialize (H ex_interp env_id env_rev ex_state (mkHeader 7 4000, [ex_tx 2 false None]) env_id_perm env_rev_perm).
   apply (f_equal results) in H. vm_compute in H. discriminate.
 Qed.
 
 (* before 17e00a9: a contract creation panics on the node whose evm.tracer is access_list *)
-Lemma tracer_nil_to_refuted : ~ env_independent (mkImpl false false true).
+Lemma tracer_nil_to_refuted : ~ env_independent (mkImpl false false true false).
 Proof.
   intros H. specialize (H ex_interp env_id env_rev ex_state (mkHeader 7 4000, [ex_tx 0 true None]) env_id_perm env_rev_perm).
   apply (f_equal results) in H. vm_compute in H. discriminate.
 Qed.
+
+(* seeded variant of EthereumTx: a transfer of more than the sender owns gets code 1 on the node without telemetry and
+   a recovered panic on the node with telemetry *)
+Lemma telemetry_nil_resp_refuted : ~ env_independent (mkImpl false false false true).
+Proof.
+  intros H. specialize (H ex_interp env_id env_rev ex_state (mkHeader 7 4000, [ex_tx_value false (10 ^ 21)]) env_id_perm env_rev_perm).
+  apply (f_equal results) in H. vm_compute in H. discriminate.
+Qed.
+
+(* ... and only transactions refused by the state transition tell the two nodes apart: with no such transaction in the
+   block the variant is independent of the telemetry switch too (what hid it from every single-configuration test) *)
+Lemma telemetry_variant_results :
+  results (exec_block ex_interp (mkImpl false false false true) env_id ex_state (mkHeader 7 4000, [ex_tx_value false (10 ^ 21); ex_tx_value false 5])) =
+    ([mkRes CODE_APPLY_ERROR 100000 21000 []; mkRes 0 100000 21000 []], []) /\
+  results (exec_block ex_interp (mkImpl false false false true) env_rev ex_state (mkHeader 7 4000, [ex_tx_value false (10 ^ 21); ex_tx_value false 5])) =
+    ([mkRes CODE_PANIC 100000 21000 []; mkRes 0 100000 21000 []], []).
+Proof. split; vm_compute; reflexivity. Qed.
 
 (* the mempool (CheckTx) decision does depend on the node's configuration: the ambient input is really wired in *)
 Lemma checktx_depends_on_node_config :
